@@ -256,6 +256,10 @@ def run(model, tier="quick"):
     effects_check(res, model, "SqueethMarket.withdraw_uni_position", REF_WITHDRAW_LP,
                   "vault LP id is cleared iff the position returned to the Uniswap valuation", FX)
     effects_check(res, model, "SqueethMarket._redeem_uni_token", REF_REDEEM, "redeemed LP: liquidity removed and amounts collected into the vault, not the wallet", FX)
+    # the lent flag changes ONLY in the two transfers above: adding to / removing from a range updates the position in place
+    # (a rebuilt Position would fall back to `transferred=False` and a lent position would be valued twice; seed C01-m16)
+    from .C07 import uni_ledgers
+    uni_ledgers(res, model)
     from .C14 import REF_COLL, REF_REDUCE_IN_VAULT, WALLET, OPQ
     formula_check(res, model, "SqueethMarket._get_effective_collateral_in_eth", REF_COLL,
                   "the lent LP position is valued inside the vault (ETH + oSQTH at index price, pending fees once)",
